@@ -269,6 +269,8 @@ def cond_facts(c, m):
                     msk = [o.uval for o in (a.inst.ops if a.inst is not None and a.inst.op == "and" else []) if o.is_const_int()]
                     if msk and msk[0] == CTYPE_BITS.get("isxdigit"):
                         eq_f.append(("xd", k[0], k[1]))     # the byte is a hexadecimal digit
+                    if a.inst is not None and a.inst.op == "call" and a.inst.callee == "isxdigit":
+                        eq_f.append(("xd", k[0], k[1]))
             elif b.uval == 0:
                 # (x != 0) where x is itself a condition
                 inner = a.inst
